@@ -150,6 +150,9 @@ func (s *tileStub) ServeHTTP(rw http.ResponseWriter, rq *http.Request) {
 		rw.Write(s.checkpoint())
 		return
 	case strings.HasPrefix(p, "/tile/"):
+		if s.kind == "tiles" {
+			p = "/tile/8/" + strings.TrimPrefix(p, "/tile/") // tlog-tiles paths leave the height (8) implicit
+		}
 		h, l, n, w, ok := parseTilePath(p)
 		if !ok || h != 8 || tilePathRef(h, l, n, w) != strings.TrimPrefix(p, "/") {
 			s.mu.Lock()
